@@ -320,7 +320,9 @@ def run_shard(spec: dict) -> ShardResult:
                             res.violation(f"interpolate(bc=...) raised {type(exc).__name__}: {str(exc)[:200]}", case)
                             break
                         res.count("bc_approach_points")
-                        cond = (abs(p[axis]) + abs(info["bounds"][axis][0])) / dx
+                        # conditioning of (p - lo)/dx along EVERY axis: the other coordinates sit at cell centres of
+                        # axes that may have tiny extents at large offsets, where the weights carry eps*|lo|/dx
+                        cond = sum((abs(p[a_]) + abs(info["bounds"][a_][0])) / dxs[a_] for a_ in range(len(dxs)))
                         tol = 256 * EPS * (abs(c1) + abs(g) + abs(c2) + abs(v) + abs(beta) * dx) * (1 + cond) + 1e-300
                         if abs(have - want) > tol:
                             res.violation("interpolation with boundary conditions does not approach the imposed boundary value linearly", case, have=have, want=want, cell=c1, ghost=g)
@@ -400,7 +402,8 @@ def run_shard(spec: dict) -> ShardResult:
                 g2 = f.interpolate_to_grid(tgt)
                 pts = tgt.cell_coords.reshape(-1, nd)
                 want = np.array([model_interpolate(info, f.data, p)[0] for p in pts]).reshape(tgt.shape)
-                if np.abs(g2.data - want).max() > 256 * EPS * (np.abs(f.data).max() + 1):
+                cond_g = sum((max(abs(lo_), abs(hi_)) * 2) / d_ for (lo_, hi_), d_ in zip(info["bounds"], dxs))
+                if np.abs(g2.data - want).max() > 256 * EPS * (np.abs(f.data).max() + 1) * (1 + cond_g):
                     res.violation("interpolate_to_grid differs from the interpolant at the target cell centres", {**case0, "target_bounds": sub_bounds})
                 res.count("interpolations_checked", int(pts.shape[0]))
             except Exception as exc:
